@@ -71,17 +71,32 @@ def neutralise(doc: str) -> str:
     return "\n".join(lines)
 
 
+def neutralise_hard(doc: str) -> str:
+    out = []
+    for line in neutralise(doc).split("\n"):
+        m = re.match(r"^([ >]*(?:(?:[-*+]|\d+[.)])[ ]+(?:\[[ xX]\][ ]+)?)*(?:#{1,6}[ ]+)?)(.*)$", line)
+        out.append(m.group(1) + HAZ_ANY.sub(lambda mm: "w" * max(1, len(mm.group(0))), m.group(2)))
+    return "\n".join(out)
+
+
 def attribute(ctx: Ctx, doc: str, W: int, sem: bool) -> str | None:
     """Counterfactual attribution: the failure is blamed on known findings only if it disappears once
     their triggers are removed from the input; otherwise it is a new violation (None)."""
     nd = neutralise(doc)
     if nd == doc:
         return None
-    try:
-        if mdast.norm_doc(nd.strip() + "\n") != mdast.norm_doc(fmt(nd, W, sem)):
+
+    def clean(d: str) -> bool:
+        try:
+            return mdast.norm_doc(d.strip() + "\n") == mdast.norm_doc(fmt(d, W, sem))
+        except Exception:
+            return False
+    if not clean(nd):
+        # the line-by-line fence tracker of `neutralise` can lose track (a fence-looking line inside an indented code block);
+        # second attempt: the marker-like words go from every line, code or not
+        hard = neutralise_hard(doc)
+        if hard == doc or not clean(hard):
             return None
-    except Exception:
-        return None
     for fid, rx in TRIGGERS:
         if rx.search(doc):
             return fid
